@@ -663,7 +663,10 @@ async fn run_inner(cfg: &Cfg, out: &mut Outcome) {
                     sh.borrow_mut().ev.push(Ev::PollCall);
                     let p = {
                         let s = srv.as_mut().unwrap();
-                        catch_unwind(AssertUnwindSafe(|| s.poll(&mut Context::from_waker(&w))))
+                        catch_unwind(AssertUnwindSafe(|| match poll_unconstrained(&mut Context::from_waker(&w), |cx| Poll::Ready(s.poll(cx))) {
+                            Poll::Ready(x) => x,
+                            Poll::Pending => Polled::Pending,
+                        }))
                     };
                     st.borrow_mut().stamp_poll_end();
                     absorb(&st, &sh);
@@ -737,7 +740,10 @@ async fn run_inner(cfg: &Cfg, out: &mut Outcome) {
                 h.polled = true;
                 let w = waker(h.flag.clone());
                 let inv_before = sh.borrow().next_inv;
-                let p = catch_unwind(AssertUnwindSafe(|| h.fut.as_mut().unwrap().as_mut().poll(&mut Context::from_waker(&w))));
+                let p = catch_unwind(AssertUnwindSafe(|| {
+                    let f = h.fut.as_mut().unwrap();
+                    poll_unconstrained(&mut Context::from_waker(&w), |cx| f.as_mut().poll(cx))
+                }));
                 if h.seq.is_none() {
                     // execute(): learn which request this future serves from the handler it started
                     let s = sh.borrow();
@@ -862,7 +868,7 @@ async fn run_inner(cfg: &Cfg, out: &mut Outcome) {
     for h in htasks.iter_mut() {
         if let Some(f) = h.fut.as_mut() {
             let w = waker(h.flag.clone());
-            let p = catch_unwind(AssertUnwindSafe(|| f.as_mut().poll(&mut Context::from_waker(&w))));
+            let p = catch_unwind(AssertUnwindSafe(|| poll_unconstrained(&mut Context::from_waker(&w), |cx| f.as_mut().poll(cx))));
             if matches!(p, Ok(Poll::Pending)) {
                 survivors += 1;
             }
